@@ -321,10 +321,26 @@ pub fn run(ctx: &mut Ctx) {
             Some(c) => judge(ctx, &c, &known),
         }
     });
+    if ctx.violations.is_empty() {
+        e2_leg(ctx);
+    }
 }
 
 pub fn replay(ctx: &mut Ctx, v: &Value) {
     use super::s;
+    if s(v, "engine") == "E2" {
+        let mut b = crate::e2::Batch::new("c16-replay", crate::e2::Opts { members: 1, ..Default::default() });
+        b.add("c00000", s(v, "src"));
+        let out = b.build_and_run();
+        b.cleanup();
+        ctx.count_eval();
+        if !out.compile_failed.is_empty() {
+            ctx.violation("a valid parameter pattern list does not compile after expansion", v);
+        } else if out.ran.get("c00000").map(|(st, _)| st != "ok").unwrap_or(true) {
+            ctx.violation("arguments are not forwarded positionally", v);
+        }
+        return;
+    }
     let pats: Vec<String> = v.get("patterns").and_then(|a| a.as_array()).map(|a| a.iter().filter_map(|x| x.as_str().map(String::from)).collect()).unwrap_or_default();
     let req: Vec<Option<String>> = v.get("required_names").and_then(|a| a.as_array()).map(|a| a.iter().map(|x| x.as_str().map(String::from)).collect()).unwrap_or_default();
     let binds: Vec<Vec<String>> = v
@@ -341,4 +357,124 @@ pub fn replay(ctx: &mut Ctx, v: &Value) {
         Err(e) if e.starts_with("HARNESS") => crate::ev::inconclusive(&e),
         Err(e) => ctx.violation(&e, v),
     }
+}
+
+// ---------- E2 leg: compile and run the pattern lists through rustc under the positional oracle ----------
+
+fn e2_type_and_value(sym: usize, i: usize) -> (String, String) {
+    let v = 11 * (i as i64 + 1);
+    match sym {
+        5 => ("(i32, i32)".into(), format!("({v}, {})", v + 1)),
+        6 | 13 | 14 | 15 => ("N".into(), format!("N({v})")),
+        7 => ("N2".into(), format!("N2({v}, {})", v + 1)),
+        8 => (format!("S{i}"), format!("S{i} {{ b{i}: {v} }}")),
+        9 => ("&i32".into(), format!("&{v}")),
+        16 => ("(i32, i32, i32)".into(), format!("({v}, {}, {})", v + 1, v + 2)),
+        17 => ("N0".into(), format!("N0({v})")),
+        _ => ("i32".into(), format!("{v}")),
+    }
+}
+
+fn e2_src(c: &Case) -> String {
+    let fname = c.fn_name.as_str();
+    let mut s = String::from("#![allow(warnings)]\nuse crate::rt;\n#[derive(Debug)] pub struct N(pub i32);\n#[derive(Debug)] pub struct N2(pub i32, pub i32);\n#[derive(Debug)] pub struct N0(pub i32);\npub struct App;\n");
+    let mut ps: Vec<String> = vec![];
+    if !c.no_deps {
+        ps.push("deps: &impl ::core::any::Any".into());
+    }
+    let mut args = vec![];
+    let mut traces = vec![];
+    for (i, (p, sym)) in c.params.iter().zip(c.syms.iter()).enumerate() {
+        let (ty, val) = e2_type_and_value(*sym, i);
+        if *sym == 8 {
+            s.push_str(&format!("#[derive(Debug)] pub struct S{i} {{ pub b{i}: i32 }}\n"));
+        }
+        let pat = if *sym == 8 { p.pat.replace("S {", &format!("S{i} {{")) } else { p.pat.clone() };
+        ps.push(format!("{pat}: {ty}"));
+        args.push(val);
+        for b in &p.bindings {
+            traces.push(format!("format!(\"{{:?}}\", {b})"));
+        }
+    }
+    let attr = if c.no_deps { "pub TheTrait, no_deps" } else { "pub TheTrait" };
+    let body_trace = if traces.is_empty() { "String::new()".to_string() } else { format!("[{}].join(\",\")", traces.join(", ")) };
+    s.push_str(&format!(
+        "#[::entrait::entrait({attr})]\nfn {fname}({}) -> String {{\n    let __r = format!(\"F|{{}}\", {body_trace});\n    rt::trace(__r.clone());\n    __r\n}}\n",
+        ps.join(", ")
+    ));
+    let a = args.join(", ");
+    let (direct, via) = if c.no_deps {
+        (format!("{fname}({a})"), format!("<::entrait::Impl<App> as TheTrait>::{fname}(&app{}{a})", if a.is_empty() { "" } else { ", " }))
+    } else {
+        (format!("{fname}(&app{}{a})", if a.is_empty() { "" } else { ", " }), format!("<::entrait::Impl<App> as TheTrait>::{fname}(&app{}{a})", if a.is_empty() { "" } else { ", " }))
+    };
+    s.push_str(&format!(
+        "pub fn run() -> Vec<String> {{\n    let mut fails = vec![];\n    let app = ::entrait::Impl::new(App);\n    let _ = rt::take();\n    let direct = {direct};\n    let t_direct = rt::take();\n    let via = {via};\n    let t_via = rt::take();\n    rt::expect_eq(&mut fails, \"result of the trait call vs the direct call\", &via, &direct);\n    rt::expect_eq(&mut fails, \"trace of the trait call vs the direct call\", &t_via, &t_direct);\n    if t_direct.len() != 1 {{ fails.push(\"HARNESS: direct call did not trace once\".to_string()); }}\n    fails\n}}\n"
+    ));
+    s
+}
+
+/// returns false if a violation was reported
+pub fn e2_leg(ctx: &mut Ctx) -> bool {
+    use crate::e2::{Batch, Opts};
+    // quick: every list of length <= 2 plus a deterministic sample of length-3 lists; thorough: every list of length <= 3
+    let mut cases: Vec<Case> = vec![];
+    let sample_stride = if ctx.quick() { 7 } else { 1 };
+    for len in 0..=3usize {
+        let count = NSYM.pow(len as u32);
+        for code in 0..count {
+            if len == 3 && code % sample_stride != 0 {
+                continue;
+            }
+            let mut syms = vec![];
+            let mut x = code;
+            for _ in 0..len {
+                syms.push(x % NSYM);
+                x /= NSYM;
+            }
+            // raw identifiers are keywords: `r#type` etc. are fine as bindings; skip nothing else
+            for no_deps in [false, true] {
+                if let Some(c) = build(&syms, no_deps, false, DEFAULT_fname) {
+                    cases.push(c);
+                }
+            }
+        }
+    }
+    let mut batch = Batch::new("c16-e2", Opts { feature_unimock: false, members: 16, ..Default::default() });
+    for (i, c) in cases.iter().enumerate() {
+        batch.add(&format!("c{i:05}"), e2_src(c));
+    }
+    let out = batch.build_and_run();
+    batch.cleanup();
+    super::common::crosscheck_records(ctx, &out.records);
+    for (id, d) in &out.compile_failed {
+        let i: usize = id[1..].parse().unwrap_or(0);
+        ctx.count_eval();
+        ctx.violation(
+            &format!(
+                "a valid parameter pattern list does not compile after expansion: {} -- `{}`",
+                d.first().map(|x| format!("{} {}", x.code, x.message)).unwrap_or_default(),
+                cases[i].item
+            ),
+            &json!({"engine": "E2", "src": e2_src(&cases[i]), "patterns": cases[i].params.iter().map(|p| p.pat.clone()).collect::<Vec<_>>()}),
+        );
+        return false;
+    }
+    for (id, (status, msg)) in &out.ran {
+        let i: usize = id[1..].parse().unwrap_or(0);
+        ctx.count_eval();
+        if status != "ok" {
+            if msg.contains("HARNESS") {
+                crate::ev::inconclusive(&format!("client harness fault: {msg}"));
+            }
+            ctx.violation(
+                &format!("arguments are not forwarded positionally ({status}): {msg} -- `{}`", cases[i].item),
+                &json!({"engine": "E2", "src": e2_src(&cases[i]), "patterns": cases[i].params.iter().map(|p| p.pat.clone()).collect::<Vec<_>>()}),
+            );
+            return false;
+        }
+    }
+    ctx.extra.insert("e2_programs_compiled_and_run".into(), json!(cases.len()));
+    ctx.extra.insert("e2_scope".into(), json!(if ctx.quick() { "all lists of length <= 2, every 7th list of length 3, both deps modes" } else { "all lists of length <= 3, both deps modes" }));
+    true
 }
